@@ -282,6 +282,10 @@ class MirDB:
                 if len(hit) == 1:
                     return hit[0]
                 scope = scope.rsplit('::', 1)[0]
+            # an associated constant of a type of the caller's own file (`Type::<T>::NAME` vs `<impl at file:line>::NAME`)
+            same = [f for f in cands if getattr(f, 'span_file', None) == getattr(caller_fn, 'span_file', None)]
+            if len(same) == 1:
+                return same[0]
         return None
 
     def closure_fn(self, agg_name, creator=None):
